@@ -83,7 +83,8 @@ def rule_b(ctx):
     # ---- Term
     term_r = region("Term")
     eff = effect_calls(term_r)
-    restore = [(b, t, c) for b, t, c in eff if Cone(F, [c]).of_class("SAFE_FFI") and any(i.symbol == "sigaction" for i, _, _ in Cone(F, [c]).of_class("SAFE_FFI"))]
+    restore = [(b, t, c) for b, t, c in eff if c.symbol == "sigaction" or
+               (Cone(F, [c]).of_class("SAFE_FFI") and any(i.symbol == "sigaction" for i, _, _ in Cone(F, [c]).of_class("SAFE_FFI")))]
     unblock = [(b, t, c) for b, t, c in eff if c.symbol == "sigprocmask"]
     raises = [(b, t, c) for b, t, c in eff if c.symbol == "raise" or (c.local and any(i.symbol == "raise" for i, _, _ in Cone(F, [c]).of_class("SAFE_FFI")))]
     aborts = [(b, t, c) for b, t, c in eff if c.symbol == "abort"]
@@ -96,6 +97,17 @@ def rule_b(ctx):
         ctx.check(rb in dom[ub] and ub in dom[xb] and rb != ub != xb, rid, "term:order", "restore SIG_DFL dominates the unblock, which dominates the re-raise", raises[0][1]["sp"],
                   {"restore": restore[0][1]["sp"], "unblock": unblock[0][1]["sp"], "raise": raises[0][1]["sp"]})
         sig_ok = [deep_strip(e) for e in fl.term_arg(rb, 0)] == [("param", 1)] and [deep_strip(e) for e in fl.term_arg(xb, 0)] == [("param", 1)]
+        if restore[0][2].symbol == "sigaction":
+            from ..flow import partial_fields
+            loc = None
+            for e in fl.term_arg(rb, 1):
+                e = deep_strip(e)
+                while e[0] in ("ref", "cast"):
+                    e = deep_strip(e[1])
+                if e[0] == "partial":
+                    loc = e[1]
+            hv = (partial_fields(m, loc, (rb, len(m.stmts(rb)))).get("sa_sigaction") or []) if loc is not None else []
+            sig_ok = sig_ok and bool(hv) and all(fold(e) == 0 for e in hv)
         ctx.check(sig_ok, rid, "term:same-signal", "restore and raise use the function's own signal argument", raises[0][1]["sp"], None)
         how = [fold(e) for e in fl.term_arg(ub, 0)]
         ctx.check(how == [SIG_UNBLOCK], rid, "term:unblock-how", "sigprocmask is called with SIG_UNBLOCK", unblock[0][1]["sp"], how)
@@ -118,6 +130,10 @@ def rule_b(ctx):
         never = not (cfg.reachable_after(m, rb, unwind=False) & set(m.exits()))
         ctx.check(never, rid, "term:never-returns", "after the restore no path returns (abort is the fallback on every path)", restore[0][1]["sp"], None)
         g, why = result_gates(F, m, rb, xb)
+        if not g and restore[0][2].symbol == "sigaction":
+            # direct system call: success is `== 0`
+            g = any(ce[0] == "binop" and ce[1] in ("Eq", "Ne") and mentions(ce, lambda x: x[0] == "call" and x[1] == rb) and
+                    ((ce[1] == "Eq" and truth(inf) is True) or (ce[1] == "Ne" and truth(inf) is False)) for (ce, inf, sb) in facts_at(m, xb))
         ctx.check(g, rid, "term:raise-after-restore-ok", "the re-raise happens only when the restore succeeded", raises[0][1]["sp"], why)
     # ---- Stop
     stop_r = region("Stop") - term_r
